@@ -234,3 +234,57 @@ def block_reads_on_cursor(prog, chk, rid, priv, fileend, floor_args=3):
         raise AnalysisBroken("%s: only %d calls take the cursor (expected at least %d): the cursor family was not recognised" % (priv, seen_cursor_args, floor_args))
     if not n_block:
         chk.ok(rid, priv, "no block reader is applied to the cursor (%d calls that take the cursor inspected)" % seen_cursor_args, "", "callee table", nontrivial=False)
+
+
+MAY_RETURN_NULL = ("String::find", "String::findOneOf", "String::findLast", "String::findLastOf", "strchr", "strrchr", "strstr", "strpbrk", "memchr", "Memory::find")
+
+
+def cursor_stores_not_null(prog, chk, rid, priv, fileend, required=True):
+    """Error positions (line, column) are computed from a Position's byte pointer: `column = pos - lineStart + 1`.  A pointer that a
+    search returned may be null (nothing found before the terminator); stored into a Position it makes the reported column a
+    meaningless number instead of a place in the text."""
+    from .. import q as _q, fin as _fin
+    from ..facts import AnalysisBroken
+    chk.rule(rid, "DOM (nullness): a pointer obtained from a search that may find nothing is stored into a Position's byte pointer only where a "
+                  "dominating test has seen it non-null", floor=1 if required else 0)
+    n = 0
+    for f in [g for g in prog.functions.values() if g.gname.startswith(priv + "::") and g.file.endswith(fileend) and g.blocks]:
+        defs = _q.local_defs(f)
+        maybe = {}
+        for did, dl in defs.items():
+            for kind, nd, init in dl:
+                if init is None:
+                    continue
+                x = f.nodes[f.strip(init)]
+                if x["k"] in ("CallExpr", "CXXMemberCallExpr") and (x.get("callee") or "") in MAY_RETURN_NULL:
+                    maybe[did] = x.get("callee")
+        for st in _q.stores(f):
+            l = f.nodes[st.lhs]
+            if l["k"] != "MemberExpr" or l.get("m") != "pos" or "*" not in (l.get("t") or "") or st.rhs is None or st.op != "=":
+                continue
+            r = f.nodes[f.strip(st.rhs)]
+            while r["k"] in ("CStyleCastExpr", "ImplicitCastExpr", "ParenExpr") and r["c"]:
+                nx_ = f.strip(r["c"][0])
+                r = f.nodes[nx_] if nx_ != r["i"] else f.nodes[r["c"][0]]
+            if r["k"] != "DeclRefExpr" or r["ref"].get("id") not in maybe:
+                continue
+            n += 1
+            name = r["ref"]["n"]
+            atoms = _fin.dominating_atoms(f, f.node_pos(st.node))
+            seen_nonnull = False
+            for a in atoms:
+                if a[0] == "case":
+                    continue
+                x_ = _fin.nonzero_operand(f, a[0], a[1])
+                if x_ is not None and _q.no_casts(f.r(x_)) == name:
+                    seen_nonnull = True
+            if seen_nonnull:
+                chk.ok(rid, f, "`%s` (from %s) stored into a position after it was seen non-null" % (name, maybe[r["ref"]["id"]]), f.where(st.node), "dominating non-null test", evals=len(atoms) or 1)
+            else:
+                chk.bad(rid, f, "null-pointer-into-position:" + name, f.where(st.node),
+                        "`%s` stores the result of %s into a position although nothing has seen it non-null: when the search runs into the "
+                        "terminator the reported column is `0 - lineStart + 1`, far outside the text" % (_q.no_casts(f.r(st.node))[:50], maybe[r["ref"]["id"]]), evals=len(atoms) or 1)
+    if not n and required:
+        raise AnalysisBroken("%s: no search result is stored into a Position (expected: the tokenizer advances its cursor to found bytes)" % priv)
+    if not n:
+        chk.ok(rid, priv, "no search result is stored into a Position", "", "this tokenizer walks byte by byte", nontrivial=False)
